@@ -469,6 +469,11 @@ def ambient(ctx):
             ctx.ob(rule, "%s:elapsed-only-into-time-fields:%s" % (rule, k), not bad, "elapsed time flows into %s" % bad if bad else "elapsed milliseconds only feed time/duration fields", fn=f)
 
 
+def _control_hash(sub, fx):
+    for key in hash_sites(fx, set(fx.fns)):
+        sub.ob("R-C05-hash-order", key, False, "consumption of a randomly ordered container")
+
+
 def run(ctx):
     hash_order(ctx)
     singleton_side_condition(ctx)
@@ -478,3 +483,4 @@ def run(ctx):
         "console (plain text) reporters may print independent detail lines in any order (the property tolerates this); those sites are listed, not violations",
         "the serializers (serde_json with preserve_order, serde_yaml, quick-xml) are deterministic functions of the value they are given",
     ]
+    ctx.positive_control("R-C05-hash-order", "hash-iteration", _control_hash, ["hash_order:loop:hash_map::Iter"])
